@@ -158,6 +158,8 @@ def main():
     t.append('Unpack(t) == [\n  ' + ',\n  '.join(un) + ' ]')
     t.append('Pack(r) ==\n  ' + '\n  \\o '.join(pk))
     # index ranges by field name, for diagnostics
+    t.append('Widths == <<' + ', '.join(map(str, ws)) + '>>')
+    t.append('SeqFields == {' + ', '.join('"%s"' % nm for nm, kd, c in L if c > 1 and kd not in ('SH', 'SS')) + '}')
     t.append('FieldAt == <<' + ', '.join('"%s"' % nm for nm, _, c in L for _ in range(c)) + '>>')
     t.append('=============================================================================')
     open('/verif/spec/TeakRegLayout.tla', 'w').write('\n'.join(t) + '\n')
